@@ -19,8 +19,9 @@ RULE = ("kind sim: a parent screen (1-5 plates, plate-uniform masks, observation
         "or predicated depends on sample / treatment ids.  Non-trivial: >= 1 operation (sim) or >= 2 rows (ctor); distinct by "
         "canonical description.  Every fourth parent carries the plate names the real preparation produces (initial_plate, unobserved_pl, "
         "generated_plate_10 / _2 / _1: string order, not numeric).  Predicates added by the gap round: the reveal guards PER PLATE "
-        "(an accepted reveal must not newly observe an all-zero plate: KNOWN finding reveal-zero-guard-is-joint; a refusal is "
-        "justified by any named all-zero / NaN plate); the three plate counters recomputed from plate names and mask alone (no Plate API) "
+        "(an accepted reveal must not name a plate of the screen whose stored values are all zero, alone or beside plates with real "
+        "values - the defect reveal-zero-guard-is-joint, repaired by fix fx5 and JUDGED since: no signature is folded, the old "
+        "witness is corpus/C12/zero-plate-beside-nonzero.json; a refusal is justified by any named all-zero / NaN plate); the three plate counters recomputed from plate names and mask alone (no Plate API) "
         "for every screen of the history and for screen_metadata.json; purity: after every returned screen all earlier screens of the "
         "history are re-read and must be unchanged (set_observed excepted).  40 further sim cases use parents whose plate NAMES are integer "
         "literals that differ from the plate ids (\"1\"..\"12\" in string order, 1-based, descending, zero-padded) with reveal_plate CLI / "
@@ -36,7 +37,8 @@ THEOREMS = {
                         "observation bits, plate ids, plate mapping unchanged",
     "C12_reveal_mask": "the row-by-row mask equation new = old | (plate id in ids)",
     "C12_reveal_monotone": "reveal = Ok: row i keeps its conditions/plate/value and, if observed before, is observed after",
-    "C12_reveal_defined": "on a constructed screen whose selected values are not all zero and NaN-free, reveal returns Ok",
+    "C12_reveal_defined": "on a constructed screen where the zero guard does not fire (reveal_zero_guard = false: some row selected, the selected values "
+                          "not all zero, NO selected plate all zero) and the selected values are NaN-free, reveal returns Ok",
     "C12_step_defined": "mask / unmask / save+load are always defined on a constructed screen; reveal exactly when its guards pass (call sites passing "
                         "mappings need them valid)",
     "C12_repaired_lifecycle_defined": "repaired construction: the same along any lifecycle from a split, without side conditions",
@@ -55,18 +57,25 @@ THEOREMS = {
     "C12_set_observed_refuses": "selection length <> size => Err 10; value count neither the number selected nor 1 => Err 11",
     "C12_reveal_refuses_zero": "selected values all zero (+0.0 / -0.0; incl. no row selected) => Err 8",
     "C12_reveal_refuses_unknown": "ids that name no plate of the screen (incl. the empty list) => Err 8",
-    "C12_reveal_refuses_nan": "selected values contain a NaN => Err 9",
-    "C12_reveal_refuses_nan_per_plate": "PER PLATE: one named plate whose stored values contain a NaN => the whole reveal is refused (Err 9)",
-    "C12_reveal_refuses_zero_every_plate_partial": "PER PLATE, the part that holds: every named plate all zero (or absent) => Err 8",
-    "C12_reveal_refuses_zero_per_plate_refuted": "the clause 'revealing refuses plates whose stored values are all zero' read per plate is FALSE of the translated "
-                                                 "source: witness = constructed screen, unobserved non-empty all-zero plate 0 (alone: Err 8) named together with "
-                                                 "plate 1 (0.5, 0.25): src_reveal_plates returns a screen in which plate 0 is observed (the guard is np.all over "
-                                                 "the UNION of the selected rows; KNOWN_FINDINGS reveal-zero-guard-is-joint replays it on the implementation)",
+    "C12_reveal_refuses_nan": "selected values contain a NaN => refused: Err 9, or Err 8 when the zero guard (tested first) fires because another selected "
+                              "plate is all zero; the selection is then never jointly zero",
+    "C12_reveal_refuses_zero_per_plate": "PER PLATE, full strength (since fix fx5): ONE named plate of the screen whose stored values are all zero => the whole "
+                                         "reveal is refused (Err 8), whatever else is named",
+    "C12_reveal_refuses_nan_per_plate": "PER PLATE: one named plate whose stored values contain a NaN => the whole reveal is refused (Err 9, or Err 8 when the "
+                                        "zero guard fires as well)",
+    "C12_reveal_zero_guard_meaning": "the zero guard fires <-> the selected values are all zero (incl. nothing selected) or some id names a plate of the screen "
+                                     "whose stored values are all zero",
+    "C12_reveal_ok_per_plate": "an ACCEPTED reveal: every named plate of the screen holds a non-zero value and no NaN",
+    "C12_reveal_refuses_zero_per_plate_refuted": "the code BEFORE fix fx5 (reveal_plates_joint: np.all over the UNION of the selected rows only) did not satisfy the "
+                                                 "per-plate clause: witness = constructed screen, unobserved non-empty all-zero plate 0 (alone: Err 8) named together "
+                                                 "with plate 1 (0.5, 0.25): the old reveal returns a screen in which plate 0 is observed; the repaired model and the "
+                                                 "translated source refuse the same call (Err 8)",
     "C12_mask_exact": "mask = Ok: all rows unobserved, everything else unchanged",
     "C12_unmask_exact": "unmask = Ok: all rows observed, everything else unchanged",
     "C12_save_load_exact": "save+load = Ok: rows (incl. mask and values), plate ids, plate mapping unchanged",
     "C12_model_is_source_reveal_plates": "the translation of the WHOLE function batchie.retrospective.reveal_plates, regenerated from the source on every "
-                                         "run (np.isin reveal mask, all-zero guard, NaN guard, Screen(...) with observation_mask | reveal_mask and both "
+                                         "run (np.isin reveal mask, joint all-zero guard, the loop over np.unique(plate_ids[reveal_mask]) with the per-plate all-zero guard, "
+                                         "NaN guard, Screen(...) with observation_mask | reveal_mask and both "
                                          "mappings passed) EQUALS the model's reveal_plates (carry_mappings true) for every screen and id list",
     "C12_model_is_source_mask_screen": "the translation of mask_screen equals the model's mask_screen (carry_mappings true) for every screen",
     "C12_model_is_source_unmask_screen": "the translation of unmask_screen equals the model's unmask_screen (carry_mappings true) for every screen",
@@ -105,6 +114,7 @@ EXPLANATION = ("Model: Model/Reveal.v (reveal_plates incl. guards, mask_screen, 
                "with their second dimension), screen.control_treatment_name, screen.plate_ids, screen.size, screen.treatment_mapping / "
                "sample_mapping = the stored mapping with the flag 'integer id dtype'; numpy, one call each: np.isin(a, l), a[bool mask], "
                "x == 0 and np.isnan(x) on a float array (bit patterns), np.all, np.any, a | b, np.zeros / np.ones(n, dtype=bool), "
+               "np.unique on an int array (sorted, duplicate-free) and screen.plate_ids == plate_id (elementwise) for reveal_plates' per-plate loop, "
                "np.zeros((n,), dtype=float), a.shape != (n,), np.unique on strings (sorted, duplicate-free), names == name, bools == bool, "
                "a[0] (IndexError when empty), a[mask] = array / = scalar (IndexError on a wrong mask length, ValueError unless as many values "
                "as selected or one), np.issubdtype(<typed array>.dtype, <its type>) = True; and Screen(kw=...) = the model's constructor "
@@ -203,26 +213,6 @@ def _counters(snap):
     return [len(by), sum(1 for v in by.values() if not v), sum(1 for v in by.values() if v)]
 
 
-def _pred_joint(desc, h):
-    """clause 6 read per plate (KNOWN_FINDINGS reveal-zero-guard-is-joint): an accepted reveal must not newly observe a
-    plate whose stored values are all zero.  Evaluated after every other clause, so that it never hides another violation."""
-    for k, (o, before, after, err, extra) in enumerate(h["events"]):
-        if o[0] not in ("reveal", "cli_reveal") or err is not None or after is None:
-            continue
-        b = extra.get("loaded", before)
-        for p in _zero_plates(b, set(o[1])):
-            was = [m for m, q in zip(b["mask"], b["pids"]) if q == p]
-            now = [m for m, q in zip(after["mask"], after["pids"]) if q == p]
-            if not all(was) and all(now):
-                return ("[reveal-zero-guard-is-joint] op %d %r: plate id %d holds only zeros (%d rows) and was unobserved; named together with "
-                        "plates holding non-zero values it was revealed instead of refused" % (k, o[:2], p, len(was)))
-    return None
-
-
-def _pred(desc, h):
-    return _pred_strict(desc, h) or _pred_joint(desc, h)
-
-
 def _pred_strict(desc, h):
     if h["contract"]:
         return "[rng-contract] " + h["contract"]
@@ -258,6 +248,13 @@ def _pred_strict(desc, h):
                 continue
             if refuse_zero or refuse_nan:
                 return "[reveal-refuses] %s: accepted a selection whose stored values are %s" % (where, "all zero (or empty)" if refuse_zero else "NaN")
+            if zero_plates:
+                # clause 6 read per plate (the defect reveal-zero-guard-is-joint, repaired by fix fx5): a plate whose stored values are
+                # all zero is refused also when it is named together with plates holding non-zero values
+                return "[reveal-refuses] %s: accepted a reveal naming plate id(s) %r whose stored values are all zero (%s)" % (
+                    where, zero_plates, ", ".join("plate %d: %d rows, %s before" % (
+                        p, sum(1 for q in b["pids"] if q == p),
+                        "observed" if all(m for m, q in zip(b["mask"], b["pids"]) if q == p) else "unobserved") for p in zero_plates))
             if not exp_uniform:
                 return "[ctor-rules] %s: a mixed plate was accepted" % where
             if any(x and not y for x, y in zip(b["mask"], after["mask"])):
@@ -435,7 +432,7 @@ def run(desc):
         w = Watch()
         h = simlib.run_history(desc, w)
         return dict(wire=[0, simlib.wire_sim(desc, h)], impl=dict(h["start"], stages=h["stages"]),
-                    pred=_pred_strict(desc, h) or ("[purity] " + w.diffs[0] if w.diffs else None) or _pred_joint(desc, h),
+                    pred=_pred_strict(desc, h) or ("[purity] " + w.diffs[0] if w.diffs else None),
                     features=_features(desc, h), cmp=simlib.cmp_sim)
     if desc["kind"] == "ctor":
         s = impl_call(sl.build, desc)
